@@ -90,6 +90,8 @@ class PathAlgebra:
                 if e.attr == "parts":
                     return v
             raise _Unsupported(f"attribute {norm(e)}")
+        if isinstance(e, (ast.Tuple, ast.List, ast.Set)):
+            return [self.ev(x) for x in e.elts]
         if isinstance(e, ast.BoolOp):
             if isinstance(e.op, ast.And):
                 r: Any = True
@@ -334,6 +336,23 @@ def run(repo: Repo, rep: Report, tier: str) -> None:
             rep.violation("R11.1", sub0 + " read-modify-write", f"{upd.fq}|rmw|dumped={dumped}|stores={len(key_ok)}|rebinds={len(fresh_after)}",
                           f"the registry written back is not the loaded one plus this client's entry (dumped `{dumped}`, loaded `{reg}`, "
                           f"{len(fresh_after)} rebinding(s) after the load): other clients' entries are lost", upd.loc(dumps[0]))
+        # the entry written under the client's key is a function of this client's codes alone: an entry computed from the other
+        # clients' entries (e.g. "only the codes nobody else lists") loses the information which client needs which class - when the
+        # other client later drops a code, the alias this client still raises disappears from the union
+        from rules._memo import name_closure
+
+        for s_ in [x for x in key_ok if isinstance(x, ast.Assign)]:
+            clo = name_closure(upd.node, {x.id for x in ast.walk(s_.value) if isinstance(x, ast.Name)})
+            codes_params = [p_ for p_ in upd.params if p_ not in ("self", "cls") and p_ != (s_.targets[0].slice.id if isinstance(s_.targets[0].slice, ast.Name) else "")]
+            subo = sub0 + " own entry"
+            if (clo & aliases) or reg in clo:
+                rep.violation("R11.1", subo, f"{upd.fq}|own-entry-depends-on-others",
+                              f"`{norm(s_)[:80]}`: the codes recorded for this client are computed from the other clients' entries as well; the registry no longer says which "
+                              "client declares which status, and a later change of one client removes exception classes another client still imports", upd.loc(s_))
+            elif not (clo & set(codes_params)):
+                rep.violation("R11.1", subo, f"{upd.fq}|own-entry-not-from-codes", f"`{norm(s_)[:80]}` does not store the codes handed to _update_registry", upd.loc(s_))
+            else:
+                rep.ok("R11.1", subo, f"`{norm(s_)[:60]}`: this client's entry is exactly its own status codes", upd.loc(s_))
         # the load must be guarded only by the existence of the file
         cfg = CFG(upd.node)
         # every return is the union over all values
@@ -571,7 +590,40 @@ def rule_cleanup_keeps_registry(repo: Repo, rep, rule: str = "R11.5") -> None:
         sub = f"{gen.module.relpath}:generate `{norm(r.ast)[:50]}` before the exception emitter"
         saved = [s for s in reads if r.id in cfg.reachable(s.id)]
         restored = [w for w in writes if w.id in after and any(e.id in cfg.reachable(w.id) for e in es)]
+        # the save must happen for *every* position of the core inside the removed directory (the removal is recursive): the path
+        # conditions guarding the read are evaluated for a core 0..3 levels below the output directory
+        narrow = None
         if saved and restored:
+            from sa.cfg import guards as _guards
+
+            dom5 = cfg.dominators()
+            out_names = [x.id for x in ast.walk(r.ast) if isinstance(x, ast.Name) and x.id not in ("shutil", "str", "os")]
+            reg_defs = [v for k, v, _ in GL.defs.get(next((x.id for x in ast.walk(saved[0].ast) if isinstance(x, ast.Name) and mentions_registry(x)), ""), []) if v is not None]
+            core_names = [x.left.id for v in reg_defs for x in ast.walk(v) if isinstance(x, ast.BinOp) and isinstance(x.op, ast.Div) and isinstance(x.left, ast.Name)]
+            if out_names and core_names:
+                on, cn = out_names[0], core_names[0]
+                for g, pol in _guards(cfg, saved[0].id, dom5):
+                    if g.kind != "test" or pol is not True:
+                        continue
+                    for cj in (g.ast.values if isinstance(g.ast, ast.BoolOp) and isinstance(g.ast.op, ast.And) else [g.ast]):
+                        nm = {x.id for x in ast.walk(cj) if isinstance(x, ast.Name)}
+                        if not ({on, cn} <= nm):
+                            continue
+                        for depth in range(0, 4):
+                            env = {on: ("R", "out"), cn: ("R", "out") + tuple(f"d{i}" for i in range(depth))}
+                            try:
+                                if not PathAlgebra(env).ev(cj):
+                                    narrow = (norm(cj), depth)
+                                    break
+                            except _Unsupported as e_:
+                                rep.error(f"{rule}: the condition `{norm(cj)[:60]}` guarding the registry save is outside the path algebra ({e_})")
+                                break
+        if saved and restored and narrow is not None:
+            rep.violation(rule, sub, f"{gen.fq}|registry-save-too-narrow|depth={narrow[1]}",
+                          f"the registry is saved only when `{narrow[0][:70]}` - false for a core {narrow[1]} level(s) below the removed directory "
+                          f"(e.g. core_package=\"<client>.{'.'.join(['x'] * max(narrow[1] - 1, 0) + ['core'])}\"): that core is wiped with its registry and the other clients' "
+                          "exception classes disappear from the regenerated aliases", gen.loc(r.ast))
+        elif saved and restored:
             rep.ok(rule, sub, f"the registry is read before the removal (L{saved[0].ast.lineno}) and written back before the emitter runs (L{restored[0].ast.lineno})", gen.loc(r.ast))
         else:
             rep.violation(rule, sub, f"{gen.fq}|cleanup-drops-registry|saved={bool(saved)}|restored={bool(restored)}",
